@@ -519,6 +519,12 @@ func (m *btModel) step(op btOp, resp btResp, nowUs int64) (kind string, msg stri
 			}
 			return "", ""
 		}
+		if !resp.ok() && (strings.HasSuffix(op.TableID, ".table.proto") || strings.HasSuffix(op.TableID, ".table.proto.tmp")) {
+			// an id that ends like the disk engine's own file names may be refused (since
+			// repair "table ids with the suffix .table.proto are reserved"); where it is
+			// accepted, the table must behave like any other and leave its neighbours alone
+			return "", ""
+		}
 		if !resp.ok() {
 			return "valid-rejected", fmt.Sprintf("%s: %v (%s)", op, resp.Code, resp.Err)
 		}
